@@ -280,7 +280,26 @@ func c13Run(c *mc.Ctx) {
 		c13One(c, []ref.Field{{ID: 1, V: ref.Value{T: ref.LIST, Elem: et, L: l}}, {ID: 2, V: ref.Value{T: ref.SET, Elem: et, L: l}}}, "members of different encoded sizes")
 		c13One(c, []ref.Field{{ID: 3, V: ref.Value{T: ref.MAP, Key: ref.I16, Elem: et, L: []ref.Value{gen.Small(ref.I16, 0), l[0], gen.Small(ref.I16, 1), l[3]}}}}, "map values of different encoded sizes")
 	}
-	c.Done("empty containers of all 121 key/value type pairs; containers whose members differ in encoded size")
+	// element counts around 2^15 (lists/sets) and 2^14 (maps: two slots per entry)
+	for _, n := range []int{32767, 32768, 32769, 40000, 65536} {
+		if !c.Mine() {
+			continue
+		}
+		l := ref.Value{T: ref.LIST, Elem: ref.BYTE}
+		st := ref.Value{T: ref.SET, Elem: ref.I16}
+		for i := 0; i < n; i++ {
+			l.L = append(l.L, ref.Value{T: ref.BYTE, I: uint64(i & 0xff)})
+			st.L = append(st.L, ref.Value{T: ref.I16, I: uint64(i & 0xffff)})
+		}
+		c13One(c, []ref.Field{{ID: 1, V: l}}, fmt.Sprintf("list of %d elements", n))
+		c13One(c, []ref.Field{{ID: 2, V: st}}, fmt.Sprintf("set of %d elements", n))
+		m := ref.Value{T: ref.MAP, Key: ref.BOOL, Elem: ref.BYTE}
+		for i := 0; i < n/2+1; i++ {
+			m.L = append(m.L, ref.Value{T: ref.BOOL, I: uint64(i & 1)}, ref.Value{T: ref.BYTE, I: uint64(i & 0xff)})
+		}
+		c13One(c, []ref.Field{{ID: 3, V: m}}, fmt.Sprintf("map of %d entries", n/2+1))
+	}
+	c.Done("empty containers of all 121 key/value type pairs; containers whose members differ in encoded size; element counts 32767..65536")
 }
 
 func init() {
